@@ -420,3 +420,162 @@ Proof.
     eapply Forall_impl; [|exact R_live0]. intros e (A & B & C & D). unfold before. unfold eoff at 2. cbn [fst].
     rewrite id_off_mkid by lia. assumption.
 Qed.
+
+(* ------------------------------------------------------------------ get *)
+Lemma R_entry bs h fs sp id d :
+  bs_ok bs = true -> R bs h fs sp -> lookup id (sp_live sp) = Some d ->
+  entry_ok (db_objs (h_blk h)) (sp_vol sp) (id, d) /\ id_off id < 65536 /\ len d < bs
+  /\ parse_id h id = Ok (id_off id, len d).
+Proof.
+  intros Hbs HR Hl. pose proof (bs_ok_bounds bs Hbs) as [[Hb1 Hb2] Hcap]. destruct HR.
+  apply lookup_in in Hl. rewrite Forall_forall in R_live0. specialize (R_live0 _ Hl).
+  split. assumption.
+  destruct R_live0 as (A & B & C & D). unfold eoff, elen in *. cbn [fst snd] in *.
+  assert (id_off id < 65536) by lia. assert (len d < bs) by lia.
+  repeat split; try assumption. rewrite A at 1. apply (parse_id_mkid h bs); assumption.
+Qed.
+
+Lemma get_R bs h fs sp id d :
+  bs_ok bs = true -> R bs h fs sp -> lookup id (sp_live sp) = Some d -> get h id = Ok d.
+Proof.
+  intros Hbs HR Hl. destruct (R_entry _ _ _ _ _ _ Hbs HR Hl) as ((A & B & C & D) & Ho & Hn & Hp).
+  unfold eoff, elen in *. cbn [fst snd] in *. destruct HR.
+  unfold get. rewrite Hp, R_ind0. unfold get_in.
+  destruct (N.leb_spec (len (db_objs (h_blk h))) (id_off id)); [lia|].
+  destruct (N.ltb_spec (len (db_objs (h_blk h))) (id_off id + len d)); [lia|].
+  f_equal. assumption.
+Qed.
+
+(* ------------------------------------------------------------------ overwrite / delete *)
+Lemma before_replace a id d old l :
+  Forall (before a) l -> lookup id l = Some old -> len d = len old -> Forall (before a) (replace_id id d l).
+Proof.
+  induction l as [|[k v] l]; cbn [lookup replace_id]; intros F Hl Hd. constructor.
+  inversion F; subst. destruct (bytes_eqb k id).
+  - injection Hl as ->. constructor; [|assumption]. unfold before, eoff, elen in *. cbn [fst snd] in *. lia.
+  - constructor. assumption. auto.
+Qed.
+Lemma forall_remove (P : bytes * bytes -> Prop) id l : Forall P l -> Forall P (remove_id id l).
+Proof.
+  induction l as [|[k v] l]; cbn [remove_id]; intros F. constructor.
+  inversion F; subst. destruct (bytes_eqb k id). assumption. constructor; auto.
+Qed.
+Lemma sorted_remove id l : StronglySorted before l -> StronglySorted before (remove_id id l).
+Proof.
+  induction 1 as [|[k v] l S IH F]; cbn [remove_id]. constructor.
+  destruct (bytes_eqb k id). assumption. constructor. assumption. apply forall_remove. assumption.
+Qed.
+
+Section Modify.
+  (* objs' = objs with the range of the live id replaced by X *)
+  Variables (objs X : bytes) (vol : N) (id old : bytes).
+  Let off := id_off id.
+  Let n := len old.
+  Hypothesis Hin : off + n <= len objs.
+  Hypothesis HX : len X = n.
+  Let objs' := take off objs ++ X ++ drop (off + n) objs.
+
+  Lemma modify_replace d l :
+    StronglySorted before l -> Forall (entry_ok objs vol) l -> lookup id l = Some old ->
+    len d = n -> X = d ->
+    Forall (entry_ok objs' vol) (replace_id id d l) /\ StronglySorted before (replace_id id d l).
+  Proof.
+    intros S F Hl Hd HXd. induction S as [|[k v] l S IH Fb]; cbn [lookup replace_id] in *. discriminate.
+    inversion F as [|? ? E F']; subst x l0.
+    destruct (bytes_eqb k id) eqn:Ek.
+    - apply bytes_eqb_eq in Ek. injection Hl as Hv. subst k v. split.
+      + constructor.
+        * destruct E as (A & B & C & D). unfold entry_ok, eoff, elen in *. cbn [fst snd] in *.
+          fold off in A, C, D |- *. rewrite Hd. fold n in A, B, C, D |- *. repeat split; try assumption.
+          unfold objs'. rewrite <- HXd. apply splice_at; assumption.
+        * rewrite Forall_forall in *. intros e He. specialize (Fb e He). specialize (F' e He).
+          destruct F' as (A & B & C & D). repeat split; try assumption.
+          unfold objs'. rewrite splice_after; assumption.
+      + constructor. assumption.
+        eapply Forall_impl; [|exact Fb]. intros e He. unfold before, eoff, elen in *. cbn [fst snd] in *. lia.
+    - destruct (IH F' Hl) as [IH1 IH2]. split.
+      + constructor; [|assumption].
+        destruct E as (A & B & C & D). repeat split; try assumption.
+        unfold objs'. rewrite splice_before; try assumption.
+        apply lookup_in in Hl. rewrite Forall_forall in Fb. specialize (Fb _ Hl).
+        unfold before, eoff at 2 in Fb. cbn [fst] in Fb. assumption.
+      + constructor. assumption. eapply before_replace; eassumption.
+  Qed.
+
+  Lemma modify_remove l :
+    StronglySorted before l -> Forall (entry_ok objs vol) l -> lookup id l = Some old ->
+    Forall (entry_ok objs' vol) (remove_id id l).
+  Proof.
+    intros S F Hl. induction S as [|[k v] l S IH Fb]; cbn [lookup remove_id] in *. discriminate.
+    inversion F as [|? ? E F']; subst x l0.
+    destruct (bytes_eqb k id) eqn:Ek.
+    - apply bytes_eqb_eq in Ek. injection Hl as Hv. subst k v.
+      rewrite Forall_forall in *. intros e He. specialize (Fb e He). specialize (F' e He).
+      destruct F' as (A & B & C & D). repeat split; try assumption.
+      unfold objs'. rewrite splice_after; assumption.
+    - constructor; [|auto].
+      destruct E as (A & B & C & D). repeat split; try assumption.
+      unfold objs'. rewrite splice_before; try assumption.
+      apply lookup_in in Hl. rewrite Forall_forall in Fb. specialize (Fb _ Hl).
+      unfold before, eoff at 2 in Fb. cbn [fst] in Fb. assumption.
+  Qed.
+End Modify.
+
+Lemma overwrite_err_R bs h fs sp id d old :
+  bs_ok bs = true -> R bs h fs sp -> lookup id (sp_live sp) = Some old -> len d <> len old ->
+  overwrite h id d = (h, Err).
+Proof.
+  intros Hbs HR Hl Hd. destruct (R_entry _ _ _ _ _ _ Hbs HR Hl) as (_ & _ & _ & Hp).
+  unfold overwrite. rewrite Hp. destruct (N.eqb_spec (len d) (len old)); [contradiction|]. reflexivity.
+Qed.
+
+Lemma overwrite_R bs h fs sp id d old :
+  bs_ok bs = true -> R bs h fs sp -> lookup id (sp_live sp) = Some old -> len d = len old ->
+  exists h', overwrite h id d = (h', Ok tt) /\ R bs h' fs (mkSpec (replace_id id d (sp_live sp)) (sp_vol sp)).
+Proof.
+  intros Hbs HR Hl Hd. destruct (R_entry _ _ _ _ _ _ Hbs HR Hl) as ((A & B & C & D) & Ho & Hn & Hp).
+  unfold eoff, elen in *. cbn [fst snd] in *. destruct HR.
+  set (objs := db_objs (h_blk h)) in *. set (off := id_off id) in *. set (n := len old) in *.
+  unfold overwrite. rewrite Hp. fold objs.
+  destruct (N.eqb_spec (len d) n); [|contradiction]. cbn [negb].
+  destruct (N.leb_spec (len objs) off); [lia|].
+  destruct (N.ltb_spec (len objs) (off + n)); [lia|].
+  eexists. split. reflexivity.
+  rewrite copy_into_same by (rewrite len_slice; lia).
+  assert (Hin : off + n <= len objs) by lia.
+  destruct (modify_replace objs d (sp_vol sp) id old Hin Hd d (sp_live sp) R_sorted0 R_live0 Hl Hd eq_refl) as [M1 M2].
+  constructor; cbn [set_blk set_objs h_ind h_others h_blk db_size db_boff h_start h_maxdb h_mansize h_alloc h_rows
+                    h_fhmax h_lensz h_manoff h_nobj h_free h_loaded sp_vol sp_live db_free db_objs]; try assumption.
+  - rewrite splice_len; assumption.
+  - rewrite splice_len; assumption.
+  - rewrite replace_len. assumption.
+  - rewrite (replace_sum id d _ old) by assumption. assumption.
+  - rewrite (replace_sum id d _ old) by assumption. assumption.
+  - rewrite replace_len. assumption.
+Qed.
+
+Lemma delete_R bs h fs sp id old :
+  bs_ok bs = true -> R bs h fs sp -> lookup id (sp_live sp) = Some old ->
+  exists h', delete h id = (h', Ok tt) /\ R bs h' fs (mkSpec (remove_id id (sp_live sp)) (sp_vol sp)).
+Proof.
+  intros Hbs HR Hl. destruct (R_entry _ _ _ _ _ _ Hbs HR Hl) as ((A & B & C & D) & Ho & Hn & Hp).
+  pose proof (bs_ok_bounds bs Hbs) as [[Hb1 Hb2] Hcap].
+  unfold eoff, elen in *. cbn [fst snd] in *. destruct HR.
+  set (objs := db_objs (h_blk h)) in *. set (off := id_off id) in *. set (n := len old) in *.
+  unfold delete. rewrite Hp. fold objs.
+  destruct (N.leb_spec (len objs) off); [lia|].
+  destruct (N.ltb_spec (len objs) (off + n)); [lia|].
+  eexists. split. reflexivity.
+  assert (Hin : off + n <= len objs) by lia.
+  pose proof (modify_remove objs (zeros n) (sp_vol sp) id old Hin (len_zeros n) (sp_live sp) R_sorted0 R_live0 Hl) as M.
+  pose proof (remove_len id _ old Hl) as L1. pose proof (remove_sum id _ old Hl) as L2. fold n in L2.
+  constructor; cbn [set_blk set_objs h_ind h_others h_blk db_size db_boff h_start h_maxdb h_mansize h_alloc h_rows
+                    h_fhmax h_lensz h_manoff h_nobj h_free h_loaded sp_vol sp_live db_free db_objs]; try assumption.
+  - rewrite splice_len; [assumption..|apply len_zeros].
+  - rewrite splice_len; [assumption..|apply len_zeros].
+  - rewrite R_nobj0. rewrite sub64_small; lia.
+  - rewrite R_free0. rewrite wrap64_small; lia.
+  - lia.
+  - lia.
+  - apply sorted_remove. assumption.
+Qed.
